@@ -1,9 +1,137 @@
-(** C15 — UnixFS directories behave as name-to-entry maps (theorems only). *)
+(** C15 — UnixFS directories behave as name-to-entry maps.
+    ONLY the property theorems, each closed by [exact] of a lemma proved in
+    proofs/P_C15*.v, with [Print Assumptions] beneath it.
+    Model: model/M_C15.v (transcribed from ipld/unixfs/hamt/{hamt,util}.go and
+    ipld/unixfs/io/directory.go, tied to the code by the correspondence check of
+    ./check C15, which evaluates the very [run] and [spec_run] below on what the
+    implementation answered). *)
 From Coq Require Import List ZArith Bool NArith String Ascii.
-From V Require Import lib.Verdict model.M_C15 proofs.P_C15.
+From V Require Import lib.Verdict model.M_C15 proofs.P_C15_bits proofs.P_C15_trie proofs.P_C15.
 Import ListNotations.
 Open Scope Z_scope.
 
-Theorem C15_placeholder : True.
-Proof. exact placeholder_true. Qed.
-Print Assumptions C15_placeholder.
+(** hashBits.Next(i) returns the bits [consumed, consumed+i) of the digest (most
+    significant first) as an integer and advances by [i]; it fails exactly when fewer
+    than [i] bits are left.  Every width, offset and digest length. *)
+Theorem C15_next_bits : forall b c i, bytes_ok b -> 0 <= c -> 0 <= i ->
+  Next b c i = if 8 * Z.of_nat (List.length b) <? c + i then None
+               else Some (bitsval b c (Z.to_nat i), c + i).
+Proof. exact Next_bits. Qed.
+Print Assumptions C15_next_bits.
+
+(** the child indices a shard of width 2^lg2 reads from a digest are its
+    floor(bits/lg2) successive lg2-bit groups — for any shard width *)
+Theorem C15_indices : forall lg2 b, bytes_ok b -> 0 < lg2 ->
+  indices lg2 b =
+  map (fun j => bitsval b (Z.of_nat j * lg2) (Z.to_nat lg2))
+      (seq 0 (Z.to_nat (8 * Z.of_nat (List.length b) / lg2))).
+Proof. exact indices_spec. Qed.
+Print Assumptions C15_indices.
+
+(** swapValue on a well-formed shard, for EVERY hash function [hidx] (so for slot
+    collisions of any depth) and any payload type: the result is well formed again
+    (sorted slots, every entry below the slot its digest selects, sub-shards hold at
+    least two entries), the returned old value is the stored one, the stored entries
+    are exactly the old ones with [k] replaced/added/removed, and a removal of a
+    missing key reports NotExist without touching anything. *)
+Theorem C15_hamt_swap : forall (V : Type) (hidx : name -> list Z) ix d k (nv : option V) cs,
+  wf hidx d (Node cs) -> skipn d (hidx k) = ix ->
+  swap_post hidx k nv cs d (swap hidx ix d k nv cs).
+Proof. exact @swap_spec. Qed.
+Print Assumptions C15_hamt_swap.
+
+(** getValue resolves exactly the stored entries — under any shard width / hash *)
+Theorem C15_hamt_find : forall (V : Type) (hidx : name -> list Z) ix d k (cs : children V),
+  wf hidx d (Node cs) -> skipn d (hidx k) = ix ->
+  match find ix k cs with
+  | FOk v => In (k, v) (walk (Node cs))
+  | _ => forall w, ~ In (k, w) (walk (Node cs))
+  end.
+Proof. exact @find_spec. Qed.
+Print Assumptions C15_hamt_find.
+
+(** walkTrie / the enumerations list every key once *)
+Theorem C15_hamt_keys_once : forall (V : Type) (hidx : name -> list Z) (t : trie V) d,
+  wf hidx d t -> NoDup (map fst (walk t)).
+Proof. exact @wf_nodup. Qed.
+Print Assumptions C15_hamt_keys_once.
+
+(** "sharded directory too deep" is reported only for an insertion whose digest
+    yields the same complete index list as a different stored name *)
+Theorem C15_toodeep_only_on_collision : forall (hidx : name -> list Z),
+  (forall a b, List.length (hidx a) = List.length (hidx b)) ->
+  forall k nv (cs : children val), wf hidx 0 (Node cs) -> (0 < List.length (hidx k))%nat ->
+  swap hidx (hidx k) 0 k nv cs = STooDeep ->
+  nv <> None /\ exists g w, In (g, w) (walk (Node cs)) /\ g <> k /\ hidx g = hidx k.
+Proof.
+  intros hidx Hlen k nv cs Hwf Hpos Hsw.
+  exact (swap_toodeep hidx Hlen (hidx k) 0 k nv cs Hwf eq_refl Hpos (fun _ _ _ => eq_refl) Hsw).
+Qed.
+Print Assumptions C15_toodeep_only_on_collision.
+
+(** Node() followed by loading the node DAG gives back the same shard tree, for every
+    prefix width, as long as no stored name is empty *)
+Theorem C15_reload : forall pad (t : trie val) nm,
+  (match t with Leaf _ _ => String.length nm = pad | Node _ => True end) ->
+  keys_nonempty t -> from_node pad (to_node pad nm t) = Some t.
+Proof. exact from_to_node. Qed.
+Print Assumptions C15_reload.
+
+(** THE refinement theorem.  For every configuration (shard width, maxLinks, mode,
+    sharding enabled or not; pure Basic, pure HAMT or Dynamic), every hash function
+    whose index lists are equally long and non-empty, every size-decision oracle and
+    every history of AddChild / RemoveChild / Find / Links / ForEachLink /
+    EnumLinksAsync / reload-from-node / GetNode (names added non-empty): what the
+    model answers satisfies the map specification [spec_run] — adds succeed and
+    replace, removals of present names succeed, of missing names report NotExist,
+    lookups and all enumerations equal the map, reloading changes nothing; an add may
+    be refused only with "maxLinks reached" by a directory that cannot shard (pure
+    basic / sharding off) when the map is full, or with "too deep" when two names
+    have identical index lists.  (Model with the defect flag OFF.) *)
+Theorem C15_model_meets_spec : forall c hidx hamt0 ops,
+  (forall a b, List.length (hidx a) = List.length (hidx b)) -> (forall a, hidx a <> []) ->
+  Forall op_ok ops ->
+  spec_run c hidx (capped c hamt0) [] ops (snd (run flags_spec c hidx (init_dir hamt0) ops)) = true.
+Proof. exact model_meets_spec. Qed.
+Print Assumptions C15_model_meets_spec.
+
+(** The code as it is (flag ON: a HAMT directory loaded from its node takes the ROOT
+    link count as totalLinks) violates the specification: four adds, a reload, then
+    RemoveChild of an existing name answers "maxLinks reached" (finding C15-1).  The
+    flag-off model meets the specification on the same history. *)
+Theorem C15_reload_total_refuted :
+  (forall a b, List.length (wit_hidx a) = List.length (wit_hidx b)) /\ (forall a, wit_hidx a <> []) /\
+  Forall op_ok wit_ops /\
+  snd (run flags_code wit_cfg wit_hidx (init_dir false) wit_ops) =
+    [BRes None; BRes None; BRes None; BRes None; BReload true; BRes (Some EMaxLinks)] /\
+  spec_run wit_cfg wit_hidx (capped wit_cfg false) [] wit_ops
+           (snd (run flags_code wit_cfg wit_hidx (init_dir false) wit_ops)) = false /\
+  spec_run wit_cfg wit_hidx (capped wit_cfg false) [] wit_ops
+           (snd (run flags_spec wit_cfg wit_hidx (init_dir false) wit_ops)) = true.
+Proof.
+  exact (conj wit_hidx_len (conj wit_hidx_pos (conj wit_ops_ok reload_total_refuted))).
+Qed.
+Print Assumptions C15_reload_total_refuted.
+
+(** Non-vacuity of the hypotheses on the hash function: the index lists of any two
+    8-byte digests (murmur3-64) are equally long and non-empty for widths 2..1024. *)
+Theorem C15_hash_hypotheses_hold : forall lg2 b1 b2, 0 < lg2 <= 10 -> bytes_ok b1 -> bytes_ok b2 ->
+  List.length b1 = 8%nat -> List.length b2 = 8%nat ->
+  List.length (indices lg2 b1) = List.length (indices lg2 b2) /\ indices lg2 b1 <> [].
+Proof. exact digest_indices_len. Qed.
+Print Assumptions C15_hash_hypotheses_hold.
+
+(** Non-vacuity: a concrete history with a three-level slot collision, a fork, a
+    removal that collapses two levels, and a reload. *)
+Example C15_example :
+  let h := fun k : name => if String.eqb k "x" then [1; 2; 3] else if String.eqb k "y" then [1; 2; 4] else [5; 0; 0] in
+  let c := mkcfg 3 1%nat 0 true false false in
+  let v := mkval 7 34 9 in
+  let ops := [OAdd "x" v false; OAdd "y" v false; OAdd "z" v false; ODump; ORemove "y" false; ODump; OReload; OFind "x"]%string in
+  snd (run flags_spec c h (init_dir true) ops) =
+  [BRes None; BRes None; BRes None;
+   BDumpHamt (PNode "" [1; 5] [PNode "1" [2] [PNode "2" [3; 4] [PLeaf "3x" v; PLeaf "4y" v]]; PLeaf "5z" v]);
+   BRes None;
+   BDumpHamt (PNode "" [1; 5] [PLeaf "1x" v; PLeaf "5z" v]);
+   BReload true; BFind (Some 7)]%string.
+Proof. vm_compute. reflexivity. Qed.
